@@ -5471,6 +5471,64 @@ where
 }
 
 // =============================================================================
+// VERIFICATION HOOKS: batch preprocessing internals (`--cfg delaunay_verif` only)
+// =============================================================================
+
+/// Thin public wrappers around the private batch-preprocessing helpers (insertion ordering,
+/// the dedup variants, balanced initial-simplex selection) so that the conformance harness can
+/// check them as pure functions. They add no behaviour.
+#[cfg(delaunay_verif)]
+pub mod verif_preprocess {
+    use super::{
+        CoordinateScalar, DataType, HashGridIndex, InsertionOrderStrategy, Vertex,
+        dedup_vertices_epsilon_hash_grid, dedup_vertices_epsilon_n2,
+        dedup_vertices_epsilon_quantized, dedup_vertices_exact_hash_grid,
+        dedup_vertices_exact_sorted, order_vertices_by_strategy, select_balanced_simplex_indices,
+    };
+
+    /// `order_vertices_by_strategy`
+    #[must_use]
+    pub fn order_vertices<T: CoordinateScalar, U: DataType, const D: usize>(
+        vertices: Vec<Vertex<T, U, D>>,
+        strategy: InsertionOrderStrategy,
+    ) -> Vec<Vertex<T, U, D>> {
+        order_vertices_by_strategy(vertices, strategy)
+    }
+
+    /// The dedup variant `which` (0 exact/sorted, 1 exact/hash grid, 2 epsilon/n^2,
+    /// 3 epsilon/quantized, 4 epsilon/hash grid); `cell_size` is the hash-grid cell size.
+    #[must_use]
+    pub fn dedup<T: CoordinateScalar, U: DataType, const D: usize>(
+        vertices: Vec<Vertex<T, U, D>>,
+        which: usize,
+        epsilon: T,
+        cell_size: T,
+    ) -> Vec<Vertex<T, U, D>> {
+        match which {
+            0 => dedup_vertices_exact_sorted(vertices),
+            1 => {
+                let mut grid: HashGridIndex<T, D, usize> = HashGridIndex::new(cell_size);
+                dedup_vertices_exact_hash_grid(vertices, &mut grid)
+            }
+            2 => dedup_vertices_epsilon_n2(vertices, epsilon),
+            3 => dedup_vertices_epsilon_quantized(vertices, epsilon),
+            _ => {
+                let mut grid: HashGridIndex<T, D, usize> = HashGridIndex::new(cell_size);
+                dedup_vertices_epsilon_hash_grid(vertices, epsilon, &mut grid)
+            }
+        }
+    }
+
+    /// `select_balanced_simplex_indices`
+    #[must_use]
+    pub fn balanced_simplex_indices<T: CoordinateScalar, U: DataType, const D: usize>(
+        vertices: &[Vertex<T, U, D>],
+    ) -> Option<Vec<usize>> {
+        select_balanced_simplex_indices(vertices)
+    }
+}
+
+// =============================================================================
 // VERIFICATION HOOKS (compiled only with `--cfg delaunay_verif`)
 // =============================================================================
 
